@@ -7,6 +7,11 @@
  *
  *   bp <workers> <max_backlog> <policy> <sched-seed> <B> <bc 0|1> <hbits> <toy|none> <pre-hex> <chunk> <nfiles> (<flags-dec> <data-hex>)*
  *   bps …the same…   and sqfs_block_processor_sync() is called before every end_file (while the file is still open)
+ *   bpx <workers> <max_backlog> <policy> <sched-seed> <B> <bc> <hbits> <toy|none|toyf> <pre-hex> <chunk> <nops> (f <flags-dec> <data-hex> | m <flags-dec> <data-hex> | s)*
+ *        an API script: f = a file (begin_file / append / end_file), m = sqfs_block_processor_submit_block (manual submission),
+ *        s = sqfs_block_processor_sync between them.  Codec `toyf` = the toy codec whose compressing do_block FAILS
+ *        (SQFS_ERROR_COMPRESSOR) on every block that starts with the byte 0xEE: determinism of failure
+ *        (Sqfs/Model/BlockProcFail.lean, `sqfsmodel c02 runx`); `wfail=` in the trace counts the failed callbacks.
  *
  * The whole client (create, begin/append/end per file, finish, destroy) runs as modelled thread 0; the workers are
  * created by thread_pool_create.  Output, one line (same canonical text as `sqfsmodel c02 run`, then ` # ` and the
@@ -43,7 +48,7 @@ extern int verif_xxh_bits;
 
 /* ------------------------------------------------------------------ toy codec (same as harness/h_c08.c, Sqfs/Model/ToyCodec.lean) */
 typedef struct { sqfs_compressor_t base; int uncompress; size_t block_size; } toy_t;
-static int g_codec_none;
+static int g_codec_none, g_codec_fail;
 
 static void toy_get_configuration(const sqfs_compressor_t *c, sqfs_compressor_config_t *cfg)
 {
@@ -77,6 +82,7 @@ static sqfs_s32 toy_do_block(sqfs_compressor_t *c, const sqfs_u8 *in, sqfs_u32 s
 		return (sqfs_s32)o;
 	}
 	if (g_codec_none) return 0;
+	if (g_codec_fail && size > 0 && in[0] == 0xEE) return SQFS_ERROR_COMPRESSOR;   /* the compressor fails on marked blocks */
 	if (vs_self() >= 0) vs_yield("cmp");       /* a worker can be pre-empted in the middle of a block */
 	i = 0;
 	while (i < size) {
@@ -227,7 +233,7 @@ static int (*real_submit)(thread_pool_t *, void *);
 static void *(*real_dequeue)(thread_pool_t *);
 static void *sub_ptr[MAXITEMS];
 static unsigned char sub_isfb[MAXITEMS];
-static size_t n_sub, n_deq, n_done, in_pool, max_in_pool;
+static size_t n_sub, n_deq, n_done, in_pool, max_in_pool, n_wfail;
 static size_t lo_live;              /* every ticket below this one has been dequeued */
 static size_t n_overtake, n_fb_overtake;
 static int fifo_ok;
@@ -260,6 +266,7 @@ static int traced_worker(void *user, void *item)
 	int r;
 	if (vs_self() >= 0) vs_yield(((sqfs_block_t *)item)->flags & SQFS_BLK_FRAGMENT_BLOCK ? "fb" : "data");
 	r = real_worker(user, item);
+	if (r != 0) ++n_wfail;
 	{
 		size_t t = ticket_of(item);
 		if (t != (size_t)-1) ord_hash = (ord_hash ^ (uint64_t)(t + 1)) * 1099511628211ULL;
@@ -315,7 +322,7 @@ thread_pool_t *__wrap_thread_pool_create(size_t num_jobs, thread_pool_worker_t w
 
 /* ------------------------------------------------------------------ workload */
 #define MAXFILES 4096
-typedef struct { unsigned flags; unsigned char *data; size_t size; } wfile_t;
+typedef struct { unsigned flags; unsigned char *data; size_t size; char kind; } wfile_t;
 static wfile_t wf[MAXFILES];
 static int nfiles, g_workers;
 static size_t g_backlog, g_blocksize, g_chunk;
@@ -389,6 +396,8 @@ static void *client(void *arg)
 	ret = sqfs_block_processor_create_ex(&desc, &proc);
 	for (i = 0; i < nfiles && ret == 0; ++i) {
 		size_t off = 0, chunk = g_chunk ? g_chunk : (wf[i].size ? wf[i].size : 1);
+		if (wf[i].kind == 'm') { ret = sqfs_block_processor_submit_block(proc, NULL, wf[i].flags, wf[i].data, wf[i].size); continue; }
+		if (wf[i].kind == 's') { ret = sqfs_block_processor_sync(proc); continue; }
 		ret = sqfs_block_processor_begin_file(proc, &inodes[i], NULL, wf[i].flags);
 		while (ret == 0 && off < wf[i].size) {
 			size_t c = wf[i].size - off < chunk ? wf[i].size - off : chunk;
@@ -419,10 +428,14 @@ static void *client(void *arg)
 			snprintf(tmp, sizeof tmp, " %llu:%u", (unsigned long long)fr.start_offset, (unsigned)fr.size);
 			o_puts(tmp);
 		}
-		snprintf(tmp, sizeof tmp, " I=%d", nfiles);
+		{
+			int nreal = 0;
+			for (i = 0; i < nfiles; ++i) if (wf[i].kind == 'f') ++nreal;
+			snprintf(tmp, sizeof tmp, " I=%d", nreal);
+		}
 		o_puts(tmp);
 		for (i = 0; i < nfiles; ++i)
-			print_inode(inodes[i]);
+			if (wf[i].kind == 'f') print_inode(inodes[i]);
 		snprintf(tmp, sizeof tmp, " Z=%zu:%016llx", mf->size, (unsigned long long)fnv(14695981039346656037ULL, mf->buf, mf->size));
 		o_puts(tmp);
 	}
@@ -500,14 +513,15 @@ static void run_line(void)
 {
 	char *save = NULL, *tok[12], *t;
 	unsigned long steps0;
-	int i, policy, dl = 0, mtx = 0, rr = -1, nspur = 0;
+	int i, policy, dl = 0, mtx = 0, rr = -1, nspur = 0, isx;
 	unsigned long guard = 0;
 	for (i = 0; i < 12; ++i) {
 		tok[i] = strtok_r(i == 0 ? line : NULL, " \n", &save);
 		if (tok[i] == NULL) { puts("bad-op"); return; }
 	}
-	if (strcmp(tok[0], "bp") != 0 && strcmp(tok[0], "bps") != 0) { puts("bad-op"); return; }
+	if (strcmp(tok[0], "bp") != 0 && strcmp(tok[0], "bps") != 0 && strcmp(tok[0], "bpx") != 0) { puts("bad-op"); return; }
 	g_sync = strcmp(tok[0], "bps") == 0;
+	isx = strcmp(tok[0], "bpx") == 0;
 	g_workers = atoi(tok[1]);
 	g_backlog = strtoul(tok[2], NULL, 10);
 	policy = atoi(tok[3]);
@@ -516,7 +530,8 @@ static void run_line(void)
 	g_bc = atoi(tok[6]);
 	verif_xxh_bits = atoi(tok[7]);
 	g_codec_none = strcmp(tok[8], "none") == 0;
-	if (!g_codec_none && strcmp(tok[8], "toy") != 0) { puts("bad-op"); return; }
+	g_codec_fail = strcmp(tok[8], "toyf") == 0;
+	if (!g_codec_none && !g_codec_fail && strcmp(tok[8], "toy") != 0) { puts("bad-op"); return; }
 	{
 		long pl = hex_decode_tok(tok[9], &g_pre, 0);
 		if (pl < 0) { puts("bad-op"); return; }
@@ -526,9 +541,13 @@ static void run_line(void)
 	nfiles = atoi(tok[11]);
 	if (nfiles < 0 || nfiles > MAXFILES) { puts("bad-op"); free(g_pre); return; }
 	for (i = 0; i < nfiles; ++i) {
-		char *a = strtok_r(NULL, " \n", &save), *b = strtok_r(NULL, " \n", &save);
+		char *kd = isx ? strtok_r(NULL, " \n", &save) : "f", *a, *b;
 		long n;
-		if (!a || !b || (n = hex_decode_tok(b, &wf[i].data, 0)) < 0) {
+		wf[i].kind = kd ? kd[0] : '?';
+		if (kd && kd[0] == 's' && kd[1] == 0) { wf[i].data = NULL; wf[i].size = 0; wf[i].flags = 0; continue; }
+		a = strtok_r(NULL, " \n", &save);
+		b = strtok_r(NULL, " \n", &save);
+		if (!kd || (kd[0] != 'f' && kd[0] != 'm') || kd[1] != 0 || !a || !b || (n = hex_decode_tok(b, &wf[i].data, 0)) < 0) {
 			puts("bad-op");
 			while (i-- > 0) free(wf[i].data);
 			free(g_pre);
@@ -541,7 +560,7 @@ static void run_line(void)
 	if (t != NULL) { puts("bad-op"); goto out; }
 
 	n_wcalls = 0; wlen = 0; if (wbuf) wbuf[0] = 0;
-	n_sub = n_deq = n_done = in_pool = max_in_pool = lo_live = 0;
+	n_sub = n_deq = n_done = in_pool = max_in_pool = lo_live = n_wfail = 0;
 	n_overtake = n_fb_overtake = 0;
 	fifo_ok = 1;
 	ord_hash = 14695981039346656037ULL;
@@ -569,11 +588,11 @@ static void run_line(void)
 		if (++guard > 200000000UL) { dl = 2; break; }
 	}
 	if (dl) {
-		printf("err deadlock # steps=%lu dl=%d mtx=%d sub=%zu fifo=%d ovt=%zu fbovt=%zu ord=%016llx maxq=%zu spur=%d\n",
-		       vs_steps() - steps0, dl, mtx, n_sub, fifo_ok, n_overtake, n_fb_overtake, (unsigned long long)ord_hash, max_in_pool, nspur);
+		printf("err deadlock # steps=%lu dl=%d mtx=%d sub=%zu fifo=%d ovt=%zu fbovt=%zu ord=%016llx maxq=%zu spur=%d wfail=%zu\n",
+		       vs_steps() - steps0, dl, mtx, n_sub, fifo_ok, n_overtake, n_fb_overtake, (unsigned long long)ord_hash, max_in_pool, nspur, n_wfail);
 	} else {
-		printf("%s # steps=%lu dl=%d mtx=%d sub=%zu fifo=%d ovt=%zu fbovt=%zu ord=%016llx maxq=%zu spur=%d\n", obuf ? obuf : "err nothing",
-		       vs_steps() - steps0, dl, mtx, n_sub, fifo_ok, n_overtake, n_fb_overtake, (unsigned long long)ord_hash, max_in_pool, nspur);
+		printf("%s # steps=%lu dl=%d mtx=%d sub=%zu fifo=%d ovt=%zu fbovt=%zu ord=%016llx maxq=%zu spur=%d wfail=%zu\n", obuf ? obuf : "err nothing",
+		       vs_steps() - steps0, dl, mtx, n_sub, fifo_ok, n_overtake, n_fb_overtake, (unsigned long long)ord_hash, max_in_pool, nspur, n_wfail);
 	}
 	vs_kill_all();
 out:
